@@ -1,6 +1,7 @@
 CONSTANTS MaxSteps = 3
-          Stride = 16
-          PoolStride = 12007
+          Stride = 32
+          PoolStride = 173
+          ZStride = 25
           Gen = TRUE
           Form = "pairs"
           Memo = "none"
